@@ -122,13 +122,13 @@ Arguments prod _ : simpl never.
 Arguments Nat.mul _ _ : simpl never.
 
 (* ---- parse on what follows the 10-byte preamble ----------------------- *)
-Lemma hlen_decode : forall h, h < 65536 ->
+Lemma hlen_decode : forall h, h / 256 < 256 ->
   N.to_nat (N.of_nat (h mod 256)) + 256 * N.to_nat (N.of_nat (h / 256)) = h.
 Proof.
   intros. rewrite !Nat2N.id. pose proof (Nat.div_mod h 256). lia.
 Qed.
 
-Lemma parse_preamble : forall s rest, hlen s < 65536 ->
+Lemma parse_preamble : forall s rest, hlen s / 256 < 256 ->
   parse (preamble s ++ rest) = parse_body (hlen s) rest.
 Proof.
   intros s rest H. unfold preamble.
@@ -161,7 +161,7 @@ Proof.
 Qed.
 
 (* parse (serialize a) = Ok a — and bytes after a complete payload are ignored *)
-Theorem parse_serialize_trailing : forall a extra, wf_arr a -> hlen (shape a) < 65536 ->
+Theorem parse_serialize_trailing : forall a extra, wf_arr a -> hlen (shape a) / 256 < 256 ->
   parse (serialize a ++ extra) = POk a.
 Proof.
   intros a extra Hwf Hh. unfold serialize, head_chunk.
@@ -169,7 +169,7 @@ Proof.
   apply parse_body_full; assumption.
 Qed.
 
-Theorem parse_serialize : forall a, wf_arr a -> hlen (shape a) < 65536 ->
+Theorem parse_serialize : forall a, wf_arr a -> hlen (shape a) / 256 < 256 ->
   parse (serialize a) = POk a.
 Proof.
   intros. rewrite <- (List.app_nil_r (serialize a)). apply parse_serialize_trailing; assumption.
@@ -209,7 +209,7 @@ Qed.
 
 (* every proper prefix of a saved file is rejected: every crash point of a
    save, including "before the header is written" (k = 0) *)
-Theorem truncation_detected : forall a k, wf_arr a -> hlen (shape a) < 65536 ->
+Theorem truncation_detected : forall a k, wf_arr a -> hlen (shape a) / 256 < 256 ->
   k < length (serialize a) ->
   parse (firstn k (serialize a)) = PErr (if k =? 0 then PEOF else PValue).
 Proof.
@@ -224,7 +224,7 @@ Proof.
     rewrite List.app_length in Hk. change (length (preamble (shape a))) with 10 in Hk. lia.
 Qed.
 
-Corollary truncation_is_error : forall a k, wf_arr a -> hlen (shape a) < 65536 ->
+Corollary truncation_is_error : forall a k, wf_arr a -> hlen (shape a) / 256 < 256 ->
   k < length (serialize a) -> is_err (parse (firstn k (serialize a))) = true.
 Proof. intros. rewrite truncation_detected by assumption. reflexivity. Qed.
 
@@ -238,7 +238,7 @@ Lemma parse_zero_head : forall n rest, 0 < n ->
 Proof. intros n rest Hn. destruct n; [lia|]. reflexivity. Qed.
 
 (* the header chunk alone (payload not yet written) *)
-Lemma parse_head_only : forall a, wf_arr a -> hlen (shape a) < 65536 ->
+Lemma parse_head_only : forall a, wf_arr a -> hlen (shape a) / 256 < 256 ->
   data a <> [] -> parse (head_chunk (shape a)) = PErr PValue.
 Proof.
   intros a Hwf Hh Hd.
